@@ -92,6 +92,8 @@ fn family(group: &str) -> String {
         "fuc"
     } else if group.contains("/sub") {
         "manifold-cover"
+    } else if group.starts_with('Q') && group.contains("/self") {
+        "one-cube-manifold"
     } else if group.starts_with('L') && group.contains("/self") {
         "lens-space"
     } else if group.contains("/self") {
@@ -151,6 +153,9 @@ impl Agg {
         }
         if spec.hist > 0 {
             bump(&mut self.perturb, "history_offset");
+        }
+        if !spec.pre.is_empty() {
+            bump(&mut self.perturb, "explicit_call_history");
         }
         if !spec.steer.is_empty() || spec.steer_min_beyond {
             bump(&mut self.perturb, "steered_requested");
